@@ -530,7 +530,7 @@ def nts_correspondence(c, cases, stats):
         if exe is not None:
             probe = {"nts": 1, "srv": 0, "count": 1, "ops": [["T", [["O", 7, 123]]]]}
             try:
-                rc, out, res = vplib.run_harness(exe, "C35N", ["0 " + nts_line_of(probe)], "ntpd", timeout=240)
+                rc, out, res = vplib.run_harness(exe, "C35N", ["0 " + nts_line_of(probe)], "ntpd", timeout=90)
                 t = res[0].split() if res else []
                 ok = rc == 0 and len(t) > 1 and t[1] != "PANIC"
             except Exception as e:       # timeout
